@@ -123,6 +123,55 @@ func VH_C17_Uint()   { vhC17Scalar[vnUint](strconv.IntSize, true) }
 func VH_C17_Named()  { vhC17Scalar[vnNamed](16, false) }
 func VH_C17_Ptr()    { vhC17Scalar[vnPtr](32, false) }
 
+// Family B for the scalar kinds: the concrete boundary texts (base prefixes,
+// underscores, leading zeros, out-of-range and malformed texts) through the
+// real strconv on both sides.
+func vhC17Texts[G any](bits int, unsigned bool) {
+	text := vhNumTexts[vChoose("text", len(vhNumTexts))]
+	pos := lexer.Position{Filename: "f", Offset: 0, Line: 1, Column: 1}
+	toks := []lexer.Token{{Type: vhTA, Value: text, Pos: pos}, lexer.EOFToken(lexer.Position{Filename: "f", Offset: 1, Line: 1, Column: 2})}
+	p := vhBuild[G](vhNoElide, &vhStreamDef{toks: toks}, 1)
+	ast, err := p.ParseString("f", "")
+	var want int64
+	var ok bool
+	if unsigned {
+		u, e := strconv.ParseUint(text, 0, bits)
+		want, ok = int64(u), e == nil
+	} else {
+		v, e := strconv.ParseInt(text, 0, bits)
+		want, ok = v, e == nil
+	}
+	if ok {
+		vReach("converts")
+		vAssert(err == nil, "C17: text accepted by strconv (base prefixes allowed) with the field's bit size but the parse failed")
+		sv, uv, isNil := vhNumValue(ast)
+		vAssert(!isNil, "C17: numeric pointer field left nil")
+		if unsigned {
+			vAssert(uv == uint64(want), "C17: stored value differs from strconv's result for the field's bit size")
+		} else {
+			vAssert(sv == want, "C17: stored value differs from strconv's result for the field's bit size")
+		}
+		return
+	}
+	vReach("rejects")
+	vAssert(err != nil, "C17: text rejected by strconv for the field's bit size but the parse succeeded")
+	perr, isErr := err.(Error)
+	vAssert(isErr && perr.Position() == pos, "C17: conversion error is not a participle.Error located at the captured token")
+}
+
+func VH_C17_Texts_Int8()   { vhC17Texts[vnInt8](8, false) }
+func VH_C17_Texts_Int16()  { vhC17Texts[vnInt16](16, false) }
+func VH_C17_Texts_Int32()  { vhC17Texts[vnInt32](32, false) }
+func VH_C17_Texts_Int64()  { vhC17Texts[vnInt64](64, false) }
+func VH_C17_Texts_Int()    { vhC17Texts[vnInt](strconv.IntSize, false) }
+func VH_C17_Texts_Uint8()  { vhC17Texts[vnUint8](8, true) }
+func VH_C17_Texts_Uint16() { vhC17Texts[vnUint16](16, true) }
+func VH_C17_Texts_Uint32() { vhC17Texts[vnUint32](32, true) }
+func VH_C17_Texts_Uint64() { vhC17Texts[vnUint64](64, true) }
+func VH_C17_Texts_Uint()   { vhC17Texts[vnUint](strconv.IntSize, true) }
+func VH_C17_Texts_Named()  { vhC17Texts[vnNamed](16, false) }
+func VH_C17_Texts_Ptr()    { vhC17Texts[vnPtr](32, false) }
+
 // An enclosing alternative may accept the input another way; otherwise the
 // conversion failure fails the parse.
 func VH_C17_Alt() {
